@@ -77,6 +77,7 @@ def run(ctx):
     res, errs = lrobl.check_all(recs, lrobl.LR_CHECKS + [lrobl.X_CHECK], "c02")
     n_term = 0
     reported = 0
+    long_inputs = 0
     total = 0
     distinct = set()
     verdicts = collections.Counter()
@@ -96,15 +97,41 @@ def run(ctx):
         cases = [lrcommon.encode_case(r, [(s, None, False)]) for s in inputs]
         go = [norm(x) for x in lrcommon.run_impl(r, cases)]
         mo = [norm(x) for x in lrcommon.run_model(ctx, r, cases)]
-        for s, c, gline, mline in zip(inputs, cases, go, mo):
+        # long inputs (about 1500 tokens: deep stacks for right recursion and nesting, long lists for left recursion), sentences by
+        # construction, each with a near miss; compared without trees (BRIEF); Earley is not run on them
+        known = {}
+        got_long = 0
+        for _ in range(8):
+            if got_long >= 2:
+                break
+            ls = cfggen.gen_long_sentence(r.g, ctx.rng, 1500)
+            if ls and len(ls) >= 400:
+                got_long += 1
+                miss = list(ls)
+                miss[ctx.rng.randrange(len(miss))] = "zz"
+                for (q, v) in ((ls, True), (miss, False)):
+                    known[len(inputs)] = v
+                    inputs.append(q)
+                    cases.append("BRIEF " + lrcommon.encode_case(r, [(q, None, False)]))
+        if known:
+            k0 = min(known)
+            go += [norm(x) for x in lrcommon.run_impl(r, cases[k0:])]
+            mo += [norm(x) for x in lrcommon.run_model(ctx, r, cases[k0:], fuel=400000)]
+            long_inputs += len(known)
+        for si, (s, c, gline, mline) in enumerate(zip(inputs, cases, go, mo)):
             total += 1
-            is_sent = ("zz" not in s) and ea.accepts(s)
+            is_sent = known[si] if si in known else (("zz" not in s) and ea.accepts(s))
             accepted = gline.startswith("OK")
             verdicts[("sentence" if is_sent else "non-sentence") + ("/accepted" if accepted else "/" + gline.split(" ")[0])] += 1
             if len(s) >= 3:
                 distinct.add((r.name, tuple(s)))
             bad_prop = (accepted != is_sent) or gline.startswith("PANIC") or gline.startswith("NONTERM") or gline.startswith("CRASH")
-            if bad_prop and reported < 3:
+            if bad_prop and reported < 3 and si in known:
+                ctx.violation({"kind": "property-oracle-on-implementation", "grammar": r.text, "gocc_flags": r.flags,
+                               "tokens": "%d tokens (sentence by construction: %s), token types: %s" % (len(s), is_sent, c[:60000]),
+                               "parser_output": gline[:300]})
+                reported += 1
+            elif bad_prop and reported < 3:
                 def bad(t, r=r, ea=ea):
                     o = norm(lrcommon.run_impl(r, [lrcommon.encode_case(r, [(t, None, False)])])[0])
                     sent = ("zz" not in t) and ea.accepts(t)
@@ -142,7 +169,9 @@ def run(ctx):
         "rule": "random CFGs (1-5 nonterminals, 1-5 terminals incl. string literals, bodies 0-4, empty alternatives, left/right/mutual "
                 "recursion, unreachable/unproductive nonterminals) + seeded families; kept when gocc exits 0 without -a (conflict-free); "
                 "token sequences: 40% random derivations, 35% token-level edits of them, 10% prefixes, 5% empty, 10% random, with an "
-                "unknown terminal (delivered as INVALID) in the edit pool; non-trivial = at least 3 tokens; distinct by (grammar, sequence)",
+                "unknown terminal (delivered as INVALID) in the edit pool; plus, per grammar, up to two sentences of about 1500 tokens built by "
+                "iterated recursion (deep stacks / long lists) with a near miss each; non-trivial = at least 3 tokens; distinct by (grammar, sequence)",
+        "long_inputs": long_inputs,
         "samples": samples,
         "programs": len(recs),
         "candidate_grammars": len(cands),
